@@ -61,8 +61,8 @@ type Explorer struct {
 	// OnExec, if set, sees every recorded execution (job-level oracles).
 	OnExec func(r *vshim.Result, x *Exec)
 	St     *Stats
-	top      int
-	stop     bool
+	top    int
+	stop   bool
 }
 
 func preemption(p vshim.Point, alt int) bool {
